@@ -42,6 +42,7 @@ type ctor struct {
 	inertFirst   bool   // result objects: the inject:"-" fields and an unexported field come BEFORE the live fields
 	markerLast   bool   // the godi.In / godi.Out marker is the LAST field of the parameter / result object
 	closure      string // non-empty: the constructor is a closure made by the factory of that name (shared code pointer)
+	ptrObj       bool   // the parameter / result object is taken / returned through a POINTER to the struct
 }
 
 var (
@@ -390,6 +391,13 @@ func main() {
 	// built-in injectables as EMBEDDED fields of a parameter object (a request-bound helper that "is" a context)
 	sp(&ctor{name: "BIanon_S6", inStyle: true, deps: []dep{{target: "Context", form: "FContext", anon: true}, {target: "Scope", form: "FScope", anon: true}, {target: "Provider", form: "FProvider"}}, outs: simpleOut("S6")})
 	sp(&ctor{name: "BIanon_K3", inStyle: true, deps: []dep{mkDep("K0", "FOpt"), {target: "Scope", form: "FScope", anon: true}, {target: "Provider", form: "FProvider", anon: true}}, outs: simpleOut("K3"), hasErr: true})
+	// parameter / result objects handled through a pointer to the struct
+	sp(&ctor{name: "InPtr_K0", inStyle: true, ptrObj: true, deps: []dep{mkDep("K1", "FPlain"), mkDep("K2", "FOpt"), mkDep("K3", "FGroup")}, outs: simpleOut("K0"), hasErr: true})
+	sp(&ctor{name: "InPtr_S4", inStyle: true, ptrObj: true, deps: []dep{mkDep("K0", "FKeyed"), mkDep("K1", "FPlain")}, outs: simpleOut("S4")})
+	sp(&ctor{name: "InPtr_K2", inStyle: true, ptrObj: true, markerLast: true, deps: []dep{mkDep("K0", "FPlain"), mkDep("", "FContext")}, outs: simpleOut("K2")})
+	sp(&ctor{name: "OutPtr_K2K3", resultObj: true, ptrObj: true, deps: P("K0"), outs: []out{{typ: "K2"}, {typ: "K3", key: "k"}}, hasErr: true})
+	sp(&ctor{name: "OutPtr_S5S6", resultObj: true, ptrObj: true, outs: []out{{typ: "S5"}, {typ: "S6", group: "g"}}})
+	sp(&ctor{name: "OutPtr_K0K1", resultObj: true, ptrObj: true, markerLast: true, outs: []out{{typ: "K0"}, {typ: "K1"}}})
 	writeTypes()
 	writeCtors()
 }
@@ -545,6 +553,9 @@ func writeCtors() {
 				b.WriteString("}\n\n")
 			}
 			params = []string{"in in_" + c.name}
+			if c.ptrObj {
+				params = []string{"in *in_" + c.name}
+			}
 		} else {
 			for i, d := range c.deps {
 				params = append(params, fmt.Sprintf("a%d %s", i, d.goType()))
@@ -588,6 +599,9 @@ func writeCtors() {
 			}
 			b.WriteString("}\n\n")
 			results = []string{"out_" + c.name}
+			if c.ptrObj {
+				results = []string{"*out_" + c.name}
+			}
 		} else {
 			for _, o := range c.outs {
 				results = append(results, goType(o.typ))
@@ -641,7 +655,9 @@ func writeCtors() {
 		// zero results
 		zero := func(withErr string) string {
 			var zs []string
-			if c.resultObj {
+			if c.resultObj && c.ptrObj {
+				zs = append(zs, "&out_"+c.name+"{}")
+			} else if c.resultObj {
 				zs = append(zs, "out_"+c.name+"{}")
 			} else {
 				for range c.outs {
@@ -663,7 +679,11 @@ func writeCtors() {
 				for i, o := range c.ignoredOuts {
 					fs = append(fs, fmt.Sprintf("%s: ig%d", o.field, i))
 				}
-				rs = append(rs, "out_"+c.name+"{"+strings.Join(fs, ", ")+"}")
+				amp := ""
+				if c.ptrObj {
+					amp = "&"
+				}
+				rs = append(rs, amp+"out_"+c.name+"{"+strings.Join(fs, ", ")+"}")
 			} else {
 				for i := range c.outs {
 					rs = append(rs, fmt.Sprintf("o%d", i))
